@@ -81,6 +81,7 @@ def foreign_signature_events(ctx, blobs):
     embedded_body = build.read_packets(build.sig_packet(sk, 0x19, 'sha256', [], [], build.subject_octets(0x19, primary=fk.pub_body, sub=sk.pub_body),
                                                          created=1262304200)[0])[0][1]
     ev = []
+    copies = []
     kept = []      # (packet, hin) of accepted ones for the bit-flip stage
     types = range(0, 128)
     for t in types:
@@ -102,7 +103,7 @@ def foreign_signature_events(ctx, blobs):
                         pkt, hin = build.sig_packet(fk, 0x00, 'sha256', hashed, [], build.subject_octets(0x00, doc=doc), created=created)
                     except ValueError:
                         continue
-                    ev.append(record_foreign(ctx, blobs, pub, pkt, hin, doc, t, critical, cname, form, kept))
+                    ev.append(record_foreign(ctx, blobs, pub, pkt, hin, doc, t, critical, cname, form, kept, copies))
     # several subpackets in arbitrary order, hashed issuer, several creation times (foreign choices PGPy never makes)
     pool = [build.subpacket(27, b'\x03'), build.subpacket(100, b'private'), build.subpacket(20, bytes([0x80, 0, 0, 0]) + struct.pack('>HH', 3, 1) + b'n@x1'),
             build.subpacket(26, b'https://example.org/policy'), build.subpacket(4, b'\x01'), build.subpacket(30, b'\x07'),
@@ -116,11 +117,57 @@ def foreign_signature_events(ctx, blobs):
         if not any(h[1] & 0x7f == 2 for h in hashed) and b'\x05\x02' not in pkt[:40]:
             # without any creation time the packet is not well-formed; force one
             pkt, hin = build.sig_packet(fk, 0x00, 'sha256', hashed, [], build.subject_octets(0x00, doc=doc), created=1262305000, issuer_in=issuer_in)
-        ev.append(record_foreign(ctx, blobs, pub, pkt, hin, doc, -1, False, 'multi-%d' % k, None, kept))
+        ev.append(record_foreign(ctx, blobs, pub, pkt, hin, doc, -1, False, 'multi-%d' % k, None, kept, copies))
+    ev += copies
+    ev += key_carried_events(ctx, blobs)
     return ev, kept, pub, kblob, fk, doc
 
 
-def record_foreign(ctx, blobs, pub, pkt, hin, doc, t, critical, cname, form, kept):
+def key_carried_events(ctx, blobs):
+    """foreign self-certifications with subpackets PGPy's typed classes would normalise, carried inside a (secret) key:
+    they must still verify on the derived public key, on copies and after export / import."""
+    import copy
+    pgpy = import_pgpy()
+    ev = []
+    variants = [('unassigned key-flag bits', dict(flags=0x43)), ('two flag octets', dict(extra_hashed=[build.subpacket(27, b'\x03\x01')])),
+                ('utf-8 policy and notation', dict(extra_hashed=[build.subpacket(26, 'https://example.org/ünï'.encode('utf-8')),
+                                                                 build.subpacket(20, bytes([0x80, 0, 0, 0]) + struct.pack('>HH', 5, 4) + 'n@ü'.encode('utf-8')[:5].ljust(5, b'x') + 'vä'.encode('utf-8') + b'l')])),
+                ('boolean 2 and unknown features', dict(extra_hashed=[build.subpacket(7, b'\x02'), build.subpacket(30, b'\x07'), build.subpacket(23, b'\xff')])),
+                ('five-octet subpacket lengths', dict(extra_hashed=[build.subpacket(100, b'abc', form=5), build.subpacket(9, struct.pack('>I', 86400 * 365 * 60), form=5)]))]
+    for label, kw in variants:
+        fk = build.ForeignKey('ed25519')
+        uid = b'Carried <carried@example.org>'
+        sblob = build.transferable_key(fk, [uid], secret=True, **kw)
+        pblob = build.transferable_key(fk, [uid], **kw)
+        sigpkt = next(r for t_, b, r in build.read_packets(pblob) if t_ == 2)
+        body = next(b for t_, b, r in build.read_packets(pblob) if t_ == 2)
+        f = build.read_sig_body(body)
+        hin = build.subject_octets(0x13, primary=fk.pub_body, uid=uid) + bytes(f['region']) + b'\x04\xff' + struct.pack('>I', len(f['region']))
+        try:
+            sec = pgpy.PGPKey.from_blob(sblob)[0]
+        except Exception as ex:
+            ctx.note('foreign secret key not importable (%s): %s' % (label, repr(ex)[:80]))
+            continue
+        routes = [('derived public key', lambda: sec.pubkey), ('copy of the secret key', lambda: copy.copy(sec)),
+                  ('copy of the derived public key', lambda: copy.copy(sec.pubkey)),
+                  ('export and import of the derived public key', lambda: pgpy.PGPKey.from_blob(bytes(sec.pubkey))[0])]
+        for rname, route in routes:
+            e = {'k': 'foreign', 'sig': blobs.add(sigpkt), 'subj': sigs.subj_cert(blobs, pblob, fk.fingerprint.hex(), uid), 'signed_over': blobs.add(hin),
+                 'sptype': -2, 'critical': False, 'cls': 'carried in key: %s / %s' % (label, rname), 'form': None, 'clause': 'C05.foreign-verifies', 'accepted': True}
+            try:
+                kk = route()
+                u = kk.userids[0]
+                s_ = u.selfsig
+                e['hashdata'] = blobs.add(s_.hashdata(u))
+                vk = kk if kk.is_public else kk.pubkey
+                e['result'] = e['observed'] = sigs.verify_outcome(vk, u, s_)
+            except Exception as ex:
+                e['result'] = e['observed'] = 'raised'
+            ev.append(e)
+    return ev
+
+
+def record_foreign(ctx, blobs, pub, pkt, hin, doc, t, critical, cname, form, kept, copies=None):
     e = {'k': 'foreign', 'sig': blobs.add(pkt), 'subj': sigs.subj_doc(blobs, doc), 'signed_over': blobs.add(hin),
          'sptype': t, 'critical': critical, 'cls': cname, 'form': form, 'clause': 'C05.foreign-verifies'}
     s = sigs.parse_sig(pkt)
@@ -135,6 +182,22 @@ def record_foreign(ctx, blobs, pub, pkt, hin, doc, t, critical, cname, form, kep
         e['result'] = 'raised'
         return e
     res = sigs.verify_outcome(pub, doc, s)
+    if copies is not None and res == 'truthy':
+        # the same signature after the object has been copied (copy.copy): still the received octets, still verifies
+        import copy
+        try:
+            s2 = copy.copy(s)
+            e2 = dict(e)
+            e2['cls'] = cname + ' (after copy)'
+            e2['hashdata'] = blobs.add(s2.hashdata(doc))
+            e2['result'] = e2['observed'] = sigs.verify_outcome(pub, doc, s2)
+            if bytes(s2) != bytes(pkt) and bytes(s2) != bytes(s):
+                e2['result'] = 'falsy'
+            copies.append(e2)
+        except Exception as ex:
+            e2 = dict(e)
+            e2.update({'cls': cname + ' (after copy)', 'result': 'raised', 'observed': 'raised'})
+            copies.append(e2)
     if critical and t not in KNOWN and res != 'truthy':
         # a critical subpacket the implementation does not understand: RFC 4880 5.2.3.1 lets (asks) it to refuse
         e['clause'] = 'ok-critical-unknown'
